@@ -327,6 +327,15 @@ func GenFilterSpec(c *simrt.Chooser) *FilterSpec {
 		}
 		f.CmdBlacklist = append(f.CmdBlacklist, randCase(c, nm))
 	}
+	if c.Choose("cmdblackpair", 4) == 0 {
+		// two blacklisted names of which one is a prefix of the other, the longer one listed first (or last)
+		pairs := [][2]string{{"hsetnx", "hset"}, {"setnx", "set"}, {"setex", "set"}, {"pexpireat", "pexpire"}, {"rpoplpush", "rpop"}, {"setrange", "set"}}
+		p := pairs[c.Choose("cmdpair", len(pairs))]
+		if c.Choose("cmdpairorder", 3) == 0 {
+			p[0], p[1] = p[1], p[0]
+		}
+		f.CmdBlacklist = append(f.CmdBlacklist, randCase(c, p[0]), randCase(c, p[1]))
+	}
 	for i := c.Choose("ndbblack", 3); i > 0; i-- {
 		f.DbBlacklist = append(f.DbBlacklist, c.Choose("dbblack", 4))
 	}
